@@ -61,7 +61,12 @@ def gen_entity_doc(rng, marker_path):
 def _gen_entity_doc(rng, marker_path):
     kind = rng.choice(['internal', 'internal-nested', 'external-system', 'external-public', 'parameter',
                        'parameter-external', 'internal-unused', 'external-dtd', 'attr-default', 'billion',
-                       'fifth-edition-doctype', 'fifth-edition-declaration', 'fifth-edition-entity-name', 'two-colons-declaration'])
+                       'fifth-edition-doctype', 'fifth-edition-declaration', 'fifth-edition-entity-name', 'two-colons-declaration',
+                       'utf16-in-disguise'])
+    if kind == 'utf16-in-disguise':
+        # a str made of the UTF-16 (or UTF-32) code units of the document: encoded to UTF-8 it is exactly those bytes
+        doc = '<?xml version="1.0"?><!DOCTYPE r [<!ENTITY \u0220 "%s">]><r a="&\u0220;">&\u0220;</r>' % MARKER
+        return kind, doc.encode(rng.choice(['utf-16-be', 'utf-16-le', 'utf-32-be'])).decode('latin1')
     if kind == 'fifth-edition-doctype':
         n = rng.choice(['\U00010000', '\u0370', 'a\u0370'])
         return kind, '<!DOCTYPE %s [<!ENTITY e "%s">]><%s>&e;</%s>' % (n, MARKER, n, n)
@@ -131,7 +136,10 @@ def gen_case(rng, tier):
                                                                    'file:///proc/self/task/1/environ', 'file:///proc/self/../self/environ',
                                                                    # the same file behind symbolic links
                                                                    'file:///proc/self/root/proc/self/environ',
-                                                                   'file:///proc/thread-self/root/proc/1/environ']),
+                                                                   'file:///proc/thread-self/root/proc/1/environ',
+                                                                   # spellings that urlopen unwraps or unquotes
+                                                                   'URL:file:///proc/self/environ', '<file:///proc/self/environ>',
+                                                                   '<URL:file:///proc/1/environ>', 'file:///proc/self/%65nviron']),
                         'enc': rng.choice(['utf-16-le', 'utf-16-be', 'utf-16-le', 'utf-16', 'utf-8', 'latin1', 'utf-32-le']),
                         'fn': rng.choice(['unparsed-text', 'unparsed-text', 'unparsed-text-lines', 'unparsed-text-available']),
                         'allow': rng.random() < 0.2})
@@ -251,7 +259,8 @@ def run_case(case, world):
                 block = b''.join(('%s=%s' % kv).encode('utf-8', 'surrogateescape') + b'\0' for kv in sorted(os.environ.items()))
                 block += b'\0' * (-len(block) % 4)
                 href = op['href']
-                for key in (href, href.replace('/self/../self/', '/self/')):
+                from urllib.parse import unwrap, unquote
+                for key in (href, href.replace('/self/../self/', '/self/'), unwrap(href), unquote(href), unquote(unwrap(href))):
                     world.fs.add(key, block)
                 enc = op['enc']
                 if op['fn'] == 'unparsed-text-available':
